@@ -101,9 +101,13 @@ theorem goodBase_append {b r : Name} (hb : GoodBase b) (hr : slash ∉ r) : Good
   refine ⟨by simp [hb.1], ?_⟩
   by_cases hnil : r = []
   · subst hnil; simpa using hb.2
-  · rw [List.getLast?_append_of_ne_nil _ hnil]
-    intro h
-    exact hr (List.mem_of_getLast? h)
+  · rw [List.getLast?_append]
+    cases hb : r.getLast? with
+    | none => exact absurd (List.getLast?_eq_none_iff.mp hb) hnil
+    | some x =>
+      intro h
+      simp at h
+      exact hr (List.mem_of_getLast? (h ▸ hb))
 
 theorem take_append_left (a b : Name) : (a ++ b).take a.length = a := by simp
 
